@@ -28,6 +28,8 @@ BLOCKS = {
     'div-persistent':     ("x = 1/Y\nd = x + 1", ['x'], ['Y']),
     'div-transient':      ("x = 1/y\ny = 0.5*y + 1", ['x', 'y'], []),
     'deco-after-fail':    ("x = 3*x + G\nd = 2*x\nL = d(k-1)", ['x'], ['G']),
+    'div-persistent-expansive': ("x = 1/Y\ny = 2*y + 1", ['x', 'y'], ['Y']),
+    'div-persistent-oscillating': ("x = 1/Y + 0*y\ny = -1*y + G", ['x', 'y'], ['Y', 'G']),
 }
 
 
@@ -35,7 +37,7 @@ def nc_case(case):
     name, cap, tol = case
     text, k0, exo = BLOCKS[name]
     full = text + '\nErr_Tolerance = %r\nMaxTime = 2' % tol
-    D = Driver(timeout_ms=15000, max_paths=20000, max_seconds=BUDGET[0])
+    D = Driver(timeout_ms=15000, max_paths=20000, max_seconds=BUDGET[0], max_depth=60 * (cap + 4) * 2)
     syms = {}
     for n in k0:
         syms[n + '@0'] = z3.Real(n + '_0')
@@ -63,6 +65,17 @@ def nc_case(case):
             snap = {v: list(es.TimeSeries[v]) for v in es.TimeSeries}
             try:
                 es.SolveStep(step)
+            except symx.Budget:
+                # the depth budget of one path is far above what cap+1 sweeps can use: a path that exhausts it is iterating
+                # beyond the cap
+                sweeps = len(es.TimeSeriesStepTrace['iteration']) if 'iteration' in es.TimeSeriesStepTrace else 0
+                if sweeps > cap + 1 and out['viol'] is None:
+                    r, m = D.holds(z3.BoolVal(False))
+                    out['viol'] = {'why': 'still iterating after %d sweeps, cap+1 = %d (runaway iteration)' % (sweeps, cap + 1),
+                                   'vals': {kk: str(m.eval(v, model_completion=True)) for kk, v in syms.items()} if m is not None else None}
+                    out['runaway'] = True
+                    raise symx.PathEnd('runaway')
+                raise
             except ConvergenceError:
                 o, failing = 'ConvergenceError', step
             except ValueError:
@@ -263,6 +276,9 @@ for n in exo: es.Parser.Exogenous.append((n, [0.0] + [vals['%%s@%%d' %% (n, k)] 
 es.ExtractVariableList(); es.SetInitialConditions()
 for n in k0: es.TimeSeries[n][0] = vals[n + '@0']
 bad = False; failing = None
+import signal
+def _alarm(*a): raise TimeoutError('runaway iteration')
+signal.signal(signal.SIGALRM, _alarm); signal.alarm(20)
 for step in (1, 2):
     es.TraceStep = step
     snap = {v: list(es.TimeSeries[v]) for v in es.TimeSeries}
@@ -270,8 +286,11 @@ for step in (1, 2):
         es.SolveStep(step)
     except ValueError as e:
         failing = step; print('step', step, 'raised', type(e).__name__); break
+    except TimeoutError as e:
+        print('step', step, 'did not stop within 20 s: more than cap+1 sweeps'); sys.exit(1)
     except Exception as e:
         print('step', step, 'raised', repr(e)); bad = True; failing = step; break
+signal.alarm(0)
 ts = es.TimeSeries
 exo_names = {v for v, _ in es.Parser.Exogenous}
 lens = {v: len(ts[v]) for v in ts if v not in exo_names}
